@@ -905,6 +905,41 @@ func c19Live(c *vh.Case) {
 			break
 		}
 	}
+	// a burst of concurrent calls whose responses are large and are written at the same moment: every
+	// caller must get its own text back intact (frames of concurrent messages must not interleave)
+	if !c.Violated() && r.Chance(1, 3) {
+		n := r.Range(4, 24)
+		size := []int{300, 6000, 30000}[r.Intn(3)]
+		errs := make([]string, n)
+		var wg sync.WaitGroup
+		for i := 0; i < n; i++ {
+			i := i
+			wg.Add(1)
+			go func() {
+				defer wg.Done()
+				p := fmt.Sprintf("burst-%d-", i) + strings.Repeat(string(rune('a'+i%26)), size) + fmt.Sprintf("-%d-end", i)
+				res, err := cs.CallTool(ctx, &mcp.CallToolParams{Name: "echo", Arguments: map[string]any{"text": p}})
+				switch {
+				case err != nil:
+					errs[i] = fmt.Sprintf("call %d failed: %v", i, err)
+				case len(res.Content) != 3:
+					errs[i] = fmt.Sprintf("call %d: %d content blocks", i, len(res.Content))
+				default:
+					if got := res.Content[0].(*mcp.TextContent).Text; got != p {
+						errs[i] = fmt.Sprintf("call %d: text of %d bytes came back as %d bytes %q", i, len(p), len(got), trunc80(got))
+					}
+				}
+			}()
+		}
+		wg.Wait()
+		c.Count("burst_calls", n)
+		for _, e := range errs {
+			if e != "" {
+				c.Violate("concurrent-frames-corrupted", "%s, %d concurrent calls with %d-byte texts: %s", kind, n, size, e)
+				break
+			}
+		}
+	}
 	if !c.Violated() {
 		cs.CallTool(ctx, &mcp.CallToolParams{Name: "nil"})
 		cs.CallTool(ctx, &mcp.CallToolParams{Name: "structured-nil"})
